@@ -15,6 +15,7 @@ import (
 	"log"
 	"net"
 	"os"
+	"strings"
 	"sync"
 	"sync/atomic"
 	"time"
@@ -517,12 +518,8 @@ func (pm *Portmapper) handleDump() []byte {
 
 func (pm *Portmapper) handleSet(r io.Reader, remoteAddr net.Addr) []byte {
 	// Only allow SET from localhost
-	if remoteAddr != nil {
-		host, _, _ := net.SplitHostPort(remoteAddr.String())
-		ip := net.ParseIP(host)
-		if ip != nil && !ip.IsLoopback() {
-			return pm.encodeBool(false)
-		}
+	if !isLoopbackAddr(remoteAddr) {
+		return pm.encodeBool(false)
 	}
 
 	var prog, vers, prot, port uint32
@@ -546,12 +543,8 @@ func (pm *Portmapper) handleSet(r io.Reader, remoteAddr net.Addr) []byte {
 
 func (pm *Portmapper) handleUnset(r io.Reader, remoteAddr net.Addr) []byte {
 	// Only allow UNSET from localhost
-	if remoteAddr != nil {
-		host, _, _ := net.SplitHostPort(remoteAddr.String())
-		ip := net.ParseIP(host)
-		if ip != nil && !ip.IsLoopback() {
-			return pm.encodeBool(false)
-		}
+	if !isLoopbackAddr(remoteAddr) {
+		return pm.encodeBool(false)
 	}
 
 	var prog, vers, prot, port uint32
@@ -650,9 +643,23 @@ func isLoopbackAddr(remoteAddr net.Addr) bool {
 	if remoteAddr == nil {
 		return true
 	}
-	host, _, _ := net.SplitHostPort(remoteAddr.String())
+	switch a := remoteAddr.(type) {
+	case *net.TCPAddr:
+		return a.IP.IsLoopback()
+	case *net.UDPAddr:
+		return a.IP.IsLoopback()
+	}
+	host, _, err := net.SplitHostPort(remoteAddr.String())
+	if err != nil {
+		return false
+	}
+	// net.ParseIP rejects a zone suffix ("fe80::1%eth0"); a zoned address is never loopback,
+	// but strip it so that the decision is made on the address itself.
+	if i := strings.IndexByte(host, '%'); i >= 0 {
+		host = host[:i]
+	}
 	ip := net.ParseIP(host)
-	return ip == nil || ip.IsLoopback()
+	return ip != nil && ip.IsLoopback()
 }
 
 // handleRpcbSet handles rpcbind v3/v4 SET procedure
